@@ -53,7 +53,8 @@ def histories_for(slices, rnd):
     pools, stats = {}, []
     for slice_, maxtx in slices:
         hs, dist, trans, _ = gen.histories(slice_, maxtx)
-        full = [h for h in hs if len(h) >= max(2, maxtx - 1) and any(x["cls"] != "in" or x["type"] not in ("buy", "gift", "donate") for x in h)]
+        # (a sheet without acquisitions is not a valid input: rp2 requires a non-empty IN table, see C12)
+        full = [h for h in hs if len(h) >= max(2, maxtx - 1) and any(x["cls"] == "in" for x in h) and any(x["cls"] != "in" or x["type"] not in ("buy", "gift", "donate") for x in h)]
         pools[slice_] = full or hs
         stats.append({"slice": slice_, "maxtx": maxtx, "states": dist, "transitions": trans, "histories_generated": len(hs), "histories_usable": len(full)})
     return pools, stats
@@ -115,11 +116,27 @@ def plan_jobs(prop, tier, rnd):
         for j in range(k):
             s = names[(i + j) % len(names)] if rnd.random() < 0.7 else rnd.choice(names)
             assets[f"B{j + 1}"] = rnd.choice(pools[s])
+        if prop == "C13" and i % 4 == 1:
+            # a lot consumed, then another lot, then the first one again (possible under LIFO / HIFO / LOFO): several acquisitions and disposals
+            def revisits(h):
+                o = sorted(h, key=lambda y: y["t"])
+                return ([x["cls"] == "in" for x in o] == [True, False, True, False] and len({x["t"] for x in o}) == 4
+                        and o[1]["amt"] + o[1]["fee"] < o[0]["amt"] and o[3]["amt"] + o[3]["fee"] > o[2]["amt"])
+            rich = [h for s_ in names for h in pools[s_] if revisits(h)]
+            if rich:
+                assets["B1"] = rnd.choice(rich)
+        if prop == "C19" and i % 4 == 1 and "F" in pools:
+            # several acquisitions with a crypto fee in one run: artificial fee disposals next to real rows
+            feey = [h for h in pools["F"] if sum(x["cls"] == "in" and x["fee"] > 0 for x in h) >= 2]
+            if feey:
+                assets = {a: rnd.choice(feey) for a in assets}
         if prop == "C19" and i % 3 == 0:
             # the same history shape under every asset: rows of different assets share row numbers
             h0 = assets["B1"]
             assets = {a: (h0 if rnd.random() < 0.6 else h) for a, h in assets.items()}
-        if prop == "C14":
+        if prop == "C13" and i % 4 == 1:
+            country = ["us", "generic"][(i // 4) % 2]
+        elif prop == "C14":
             country = ["us", "ie"][i % 2]
         elif prop == "C20":
             country = "jp"
@@ -138,12 +155,16 @@ def plan_jobs(prop, tier, rnd):
             shape = ["none", "none", "from", "to"][i % 4]
         else:
             shape = ["none", "from", "to", "fromto"][i % 4]
+        if prop == "C13" and i % 4 == 1:
+            shape = "none" if (i // 4) % 3 else "to"      # (a from-date would hide the revisited lot's row)
         if country == "jp" and shape == "fromto":
             shape = "from"
         method, sched = None, None
         if country in ("us", "generic"):
             r = rnd.random()
-            if r < 0.6:
+            if prop == "C13" and i % 4 == 1:
+                method = rnd.choice(["lifo", "lifo", "hifo", "lofo"])
+            elif r < 0.6:
                 method = rnd.choice(METHODS)
             elif r < 0.85:
                 y = min_year(assets)
@@ -389,6 +410,10 @@ def jpgen_job(scen, rnd):
             h.append(_tx("in", "buy", (date(y, 1, 15) - BASE_DATE).days, len(s["sell"]) + 1 if y == first else 1))
         for y in sorted(s["sell"]):
             h.append(_tx("out", "sell", (date(y, 6, 15) - BASE_DATE).days, 1, price=3))
+        if rnd.random() < 0.5:
+            # a transfer without fee: listed nowhere in the JP sheets (neither purchase nor sale), so rows printed and transactions differ
+            y = rnd.choice(sorted(s["buy"]))
+            h.append(_tx("intra", "move", (date(y, 3, 1) - BASE_DATE).days, 1, a1=11, a2=21))
         assets[f"B{k + 1}"] = h      # (in table order: acquisitions first, as the generator meets them)
     job = make_job(assets, "jp", rnd, shape="none", lang=rnd.choice(["en", "kl"]), perm=False)
     job["tag"] = "jpgen:" + json.dumps(scen, sort_keys=True)
@@ -470,9 +495,15 @@ def run(prop, tier, keep_replays=False):
     skipped = [t for t in traces if "skip" in t["meta"]]
     over = [t for t in traces if t["meta"].get("overflow")]
     traces = [t for t in traces if "skip" not in t["meta"] and not t["meta"].get("overflow") and t["has"][has_key(prop)]]
-    if len(skipped) > len(jobs) // 4:
-        # runs that do not complete are C16's business, but a check that cannot observe documents has nothing to stand on
-        raise common.MachineryError(f"{len(skipped)}/{len(jobs)} runs did not complete; first: {skipped[0]['meta']['skip']}")
+    # a valid, supported input for which the entry point does not complete leaves no document to judge: the report this property is about
+    # does not show what it must (the same run is a C16 violation; here it is reported under this property's own clause)
+    if skipped:
+        path = common.write_replay(prop, "report_is_written_for_valid_input", {
+            "property": prop, "clause": f"{prop}.report_is_written_for_valid_input", "failing_traces_with_this_clause": len(skipped),
+            "tags": sorted({t["meta"]["tag"] for t in skipped})[:25], "what": skipped[0]["meta"]["skip"][:600], "meta": {"job": skipped[0]["meta"]["job"], "tag": skipped[0]["meta"]["tag"]},
+            "reproduce": f"./check {prop} --replay <this file>"})
+        violations.append({"kind": "run", "clause": f"{prop}.report_is_written_for_valid_input", "count": len(skipped), "replay": path})
+        printed.append(f"VIOLATION property={prop} replay={path}")
     controls = []
     order = list(range(len(traces)))
     rnd.shuffle(order)
@@ -505,7 +536,8 @@ def replay(prop, path):
     t = build_trace(results[0])
     if "skip" in t["meta"]:
         print("run did not complete:", t["meta"]["skip"])
-        return 2
+        print(f"VIOLATION property={prop} replay={path}")
+        return 1
     verdicts, _, _ = tlc.validate_traces([t], spec="Trace_Docs.tla", shards=1)
     print(json.dumps({"tag": t["meta"]["tag"], "failing_clauses": verdicts[0]}, indent=1))
     if any(c.startswith(prop + ".") for c, _ in verdicts[0]):
